@@ -144,6 +144,12 @@ def keyed(st):
     o["ontrack"] = st.get("ontrack", [])
     return o
 
+def norm_lists(res):
+    """driver's `get lists` result -> what Config!ListsOkT / LookupsOk read (addresses as paths)"""
+    for pb in res.get("perboard", []):
+        if "byuid" in pb: pb["byuid"]["addr"] = path_of(pb["byuid"]["addr"])
+    return res
+
 def keyed_bundle(b):
     o = {"snap": keyed(b["snap"]), "sg": {}, "unk": b["unk"], "boards": b["boards"], "trains": b["trains"]}
     for k, lst in b["sg"].items():
@@ -207,7 +213,7 @@ def to_events(sess, rr):
         if ev.pop("_m", None): ev["m"] = wire.unhex(a[0]["m"]) if a[0].get("m") else []
         if ev.pop("_lists", None):
             if a[0].get("res") is None: probs.append("lists missing at line %d" % e["act"]); break
-            ev["lists"] = a[0]["res"]
+            ev["lists"] = norm_lists(a[0]["res"])
         if ev.get("e") == "up" and e["drain"] is None: ev["qm"] = []; ev["qe"] = []; ev["qi"] = []
         outs = list(a)
         if e["drain"] is not None:
